@@ -43,7 +43,20 @@ def run(repo, rep, tier):
         rep.ob("C07.R1", n, f"{q} writes _max_id", q in allowed, "" if q in allowed else "the identifier counter is written outside its owner", key=f"C07.R1@writer:{q}")
     nm = repo.func("containers.py", "ObjectStore.new_message_id")
     body = [U(s) for s in nm.body if not (isinstance(s, ast.Expr) and isinstance(s.value, ast.Constant))]
-    ok = body == ["self._max_id += 1", "self._objects[PACKAGE_ID].last_object_identifier = self._max_id", "return self._max_id"]
+    # function summary: one path; it returns the old counter + 1 and stores that same value as the counter and as the
+    # package's last_object_identifier
+    from ..funsum import Summarizer as _Summ0
+    ok = False
+    try:
+        ps_ = _Summ0(consts=repo.consts).summarize(nm)
+        if len(ps_) == 1 and ps_[0].kind == "return" and not ps_[0].conds:
+            fx_ = {k_: U(v_) for k_, v_, _n in ps_[0].effects if isinstance(v_, ast.AST)}
+            new_ = "self._max_id + 1"
+            ok = U(ps_[0].ret) == new_ and fx_.get("self._max_id") == new_ and any(
+                k_.endswith(".last_object_identifier") and "PACKAGE_ID" in k_.replace(str(repo.consts.get("PACKAGE_ID")), "PACKAGE_ID") and v_ == new_ for k_, v_ in fx_.items()) \
+                and set(fx_) <= {"self._max_id"} | {k_ for k_ in fx_ if k_.endswith(".last_object_identifier")}
+    except AnalysisError:
+        ok = False
     rep.ob("C07.R1", nm, "new_message_id: increment, record as last_object_identifier, return", ok,
            "" if ok else f"found {body}: a new id must be above every earlier one and recorded as the high-water mark on every path", key="C07.R1@new_message_id")
     from ..symexec import Straight, body_paths, bool_atoms, bool_eval, expand_aliases
@@ -386,6 +399,8 @@ def _anc(n):
 
 
 VARIANTS = [
+    T("new-message-id-through-a-local", "containers.py", '        self._max_id += 1\n        self._objects[PACKAGE_ID].last_object_identifier = self._max_id\n        return self._max_id\n', "        new_id = self._max_id + 1\n        self._max_id = new_id\n        self._objects[PACKAGE_ID].last_object_identifier = new_id\n        return new_id\n"),
+    M("new-message-id-records-the-old-value", "containers.py", '        self._max_id += 1\n        self._objects[PACKAGE_ID].last_object_identifier = self._max_id\n        return self._max_id\n', "        new_id = self._max_id + 1\n        self._objects[PACKAGE_ID].last_object_identifier = self._max_id\n        self._max_id = new_id\n        return new_id\n", "C07.R1"),
     M("tile-metadata-after-loop", "model.py", """            base_data_store.tiles.tile_size = MAX_TILE_SIZE
 
             self.add_component_metadata(tile_id, "CalculationEngine", "Tables/Tile-{}")
